@@ -91,6 +91,30 @@ def gen(t, n):
         return ("__out(1); function f() { " + "".join("var v%d = %d; " % (i, i) for i in range(n)) +
                 "return function () { return " + ("v%d + v0 + %s" % (n - 1, " + ".join("v%d * 0" % i for i in range(0, n, 7))) if n else "0")
                 + " } } f()()"), (n - 1 if n else 0)
+    # one dimension at a time: many variables of one kind with only 7 distinct constants, every variable read (and written)
+    if t in ("locals_sum", "captured_sum", "captured_bump", "captured_deep", "params_sum", "globals_sum", "cellvars_owner"):
+        names = ["v%d" % k for k in range(n)]
+        total = " + ".join(names) if n else "0"
+        want = sum(k % 7 for k in range(n))
+        decl = ("var " + ", ".join("%s = %d" % (v, k % 7) for k, v in enumerate(names)) + "; ") if n else ""
+        bump = " ".join("%s = %s + 1;" % (v, v) for v in names)
+        if t == "locals_sum":
+            return "__out(1); function f() { %s%s return %s } f()" % (decl, bump, total), want + n
+        if t == "globals_sum":
+            return "__out(1); %s%s %s" % (decl, bump, total), want + n
+        if t == "params_sum":
+            return ("__out(1); function f(%s) { %s return %s } f(%s)" % (", ".join(names), bump, total, ", ".join(str(k % 7) for k in range(n)))), want + n
+        if t == "captured_sum":
+            return "__out(1); function f() { %sfunction g() { return %s } return g() } f()" % (decl, total), want
+        if t == "captured_bump":
+            return ("__out(1); function f() { %sfunction g() { return %s } function b() { %s } var a = g(); b(); return a * 100000 + g() } f()"
+                    % (decl, total, bump)), want * 100000 + want + n
+        if t == "captured_deep":
+            return ("__out(1); function f() { %sreturn function () { return function () { %s return %s } } } f()()()" % (decl, bump, total)), want + n
+        if t == "cellvars_owner":
+            # the owner itself reads and writes its captured variables
+            return ("__out(1); function f() { %sfunction g() { return %s } %s return g() * 100000 + (%s) } f()" % (decl, total, bump, total)), \
+                (want + n) * 100000 + want + n
     if t == "function_literals":
         return ("__out(1); " + "".join("var f%d = function () { return %d }; " % (i, i) for i in range(n)) +
                 ("f%d() + f0()" % (n - 1) if n else "0")), (n - 1 if n else 0)
@@ -108,7 +132,8 @@ def gen(t, n):
 TEMPLATES = ["dowhile_continue", "for_continue", "callback_loop", "callback_branch", "comparator_try", "getter_switch", "stmts_program", "stmts_function", "loop_body", "while_body", "then_taken", "then_skipped", "cond_expr",
              "before_catch", "finally_after", "break_far", "switch_cases", "switch_default", "array_literal",
              "object_literal", "call_args", "params", "num_constants", "str_constants", "globals", "locals", "captured",
-             "function_literals", "string_literal", "sum_chain", "member_chain", "comma_chain"]
+             "function_literals", "string_literal", "sum_chain", "member_chain", "comma_chain",
+             "locals_sum", "captured_sum", "captured_bump", "captured_deep", "params_sum", "globals_sum", "cellvars_owner"]
 JUMPY = ["dowhile_continue", "for_continue", "callback_loop", "callback_branch", "comparator_try", "getter_switch", "stmts_program", "stmts_function", "loop_body", "while_body", "then_taken", "then_skipped", "cond_expr",
          "before_catch", "finally_after", "break_far", "switch_cases", "switch_default", "num_constants"]
 NS = [0, 1, 2, 127, 128, 254, 255, 256, 257, 511, 512, 1023, 4096]
